@@ -869,3 +869,56 @@ Section Instance.
     - exact (proj1 (front_end_descriptors (j5s_walk_gen mkR) ff input v lf Hout)).
   Qed.
 End Instance.
+
+(* ------------------------------------------------------------------ the class "scalar split delimiter" is empty
+   model/CmpbWalk.v split_pieces answers [RUnmod] for a scalar split whose delimiter is not ".".  Every block spec
+   the walker ever holds is [cont_spec] of a container (the two [mkCF] sites of the model: walk_path's child and
+   root_cfield), [cont_spec] is [build_spec] of a schema or the empty spec, and [build_spec] copies the split of
+   the GIVEN spec (schemaset.go _buildSpec).  The given specs are the translated table WalkSchemaGen.specs: all
+   their delimiters are "." (computed; a new delimiter in j5s.go breaks [given_specs_delims] at make time). *)
+Definition delim_modelled (b : bspec) : bool :=
+  match bs_split b with
+  | Some ss => match sp_delim ss with Some dl => String.eqb dl "." | None => true end
+  | None => true
+  end.
+
+Lemma given_specs_delims : forallb (fun kv => delim_modelled (snd kv)) given_specs = true.
+Proof. vm_compute. reflexivity. Qed.
+
+Lemma assoc_some_in {A} (k : string) (l : list (string * A)) (v : A) : assoc k l = Some v -> In (k, v) l.
+Proof.
+  induction l as [|[k' v'] r IH]; [discriminate|]. cbn [assoc].
+  destruct (String.eqb k k') eqn:E.
+  - intro H. injection H as <-. apply String.eqb_eq in E. subst. left. reflexivity.
+  - intro H. right. apply IH. exact H.
+Qed.
+
+Lemma build_spec_delim (d : sdef) : delim_modelled (build_spec d) = true.
+Proof.
+  unfold build_spec. cbv zeta.
+  set (g := match assoc (sd_name d) given_specs with Some g0 => g0 | None => empty_spec end).
+  assert (Hg : delim_modelled g = true).
+  { unfold g. destruct (assoc (sd_name d) given_specs) as [g0|] eqn:E; [|reflexivity].
+    apply assoc_some_in in E. pose proof given_specs_delims as H. rewrite forallb_forall in H. exact (H _ E). }
+  destruct (bs_only g); [exact Hg|]. exact Hg.
+Qed.
+
+Lemma cont_spec_delim (c : cont) : delim_modelled (cont_spec c) = true.
+Proof.
+  destruct c as [s|k]; cbn [cont_spec]; [|reflexivity].
+  destruct (find_schema s); [apply build_spec_delim|reflexivity].
+Qed.
+
+Lemma split_pieces_modelled (c : cont) (ss : split) (val : aval) (w : string) :
+  bs_split (cont_spec c) = Some ss -> split_pieces ss val <> RUnmod w.
+Proof.
+  intro Hs. pose proof (cont_spec_delim c) as H. unfold delim_modelled in H. rewrite Hs in H.
+  unfold split_pieces. destruct (sp_delim ss) as [dl|].
+  - rewrite H. cbn [negb]. destruct (as_string val); discriminate.
+  - destruct val; discriminate.
+Qed.
+
+(* the hypothesis is satisfiable: j5.schema.v1.Ref has a "." split *)
+Lemma split_pieces_modelled_example :
+  exists ss, bs_split (cont_spec (CSchema "j5.schema.v1.Ref")) = Some ss /\ sp_delim ss = Some "."%string.
+Proof. vm_compute. eexists. split; reflexivity. Qed.
